@@ -350,6 +350,89 @@ Proof.
     simpl. rewrite IH by assumption. reflexivity.
 Qed.
 
+(** ** the repaired decoding (6d0a3af): piece by piece around the encoded slashes *)
+
+Lemma ues_pieces_plain c r : Ascii.eqb c "%"%char = false ->
+  ues_pieces (String c r) = (String c (fst (ues_pieces r)), snd (ues_pieces r)).
+Proof.
+  intro H. destruct r as [|a [|b r']].
+  - reflexivity.
+  - reflexivity.
+  - change (ues_pieces (String c (String a (String b r'))))
+      with (if is_enc_slash true c a b then let '(h, t) := ues_pieces r' in (EmptyString, h :: t)
+            else let '(h, t) := ues_pieces (String a (String b r')) in (String c h, t)).
+    unfold is_enc_slash. rewrite H. cbn [andb]. destruct (ues_pieces (String a (String b r'))). reflexivity.
+Qed.
+
+Lemma ues_pieces_trip a b r : ishex a = true -> ishex b = true ->
+  ues_pieces (String "%"%char (String a (String b r))) =
+  if Ascii.eqb (hexbyte a b) "/"%char then (EmptyString, fst (ues_pieces r) :: snd (ues_pieces r))
+  else (String "%"%char (String a (String b (fst (ues_pieces r)))), snd (ues_pieces r)).
+Proof.
+  intros Ha Hb.
+  change (ues_pieces (String "%"%char (String a (String b r))))
+    with (if is_enc_slash true "%"%char a b then let '(h, t) := ues_pieces r in (EmptyString, h :: t)
+          else let '(h, t) := ues_pieces (String a (String b r)) in (String "%"%char h, t)).
+  rewrite enc_slash_ci_value by auto.
+  destruct (Ascii.eqb (hexbyte a b) "/"%char).
+  - destruct (ues_pieces r). reflexivity.
+  - rewrite (ues_pieces_plain a) by (apply ishex_not_pct; assumption).
+    rewrite (ues_pieces_plain b) by (apply ishex_not_pct; assumption). reflexivity.
+Qed.
+
+Lemma join_cons_head sep c x r : join_with sep (String c x :: r) = String c (join_with sep (x :: r)).
+Proof. destruct r; reflexivity. Qed.
+
+(** the pieces of a well-formed value decode, and joined with %2F they are
+    "everything decoded except the encoded slash" — whatever the value contains *)
+Lemma ues_pieces_correct v : wfenc v ->
+  exists dh dt, unescape (fst (ues_pieces v)) = Some dh /\ unescape_all (snd (ues_pieces v)) = Some dt /\
+                decode_keep_slash v = join_with "%2F" (dh :: dt).
+Proof.
+  induction 1 as [|c s Hc Hs (dh & dt & E1 & E2 & E3)|a b s Ha Hb Hs (dh & dt & E1 & E2 & E3)].
+  - exists "", []. auto.
+  - rewrite ues_pieces_plain by assumption. cbn [fst snd].
+    exists (String c dh), dt. splits; [|assumption|].
+    + unfold unescape in *. rewrite unescape_gen_cons_plain by (assumption || reflexivity). rewrite E1. reflexivity.
+    + rewrite dks_plain by assumption. rewrite E3, join_cons_head. reflexivity.
+  - rewrite ues_pieces_trip by assumption. rewrite dks_trip. destruct (Ascii.eqb (hexbyte a b) "/"%char); cbn [fst snd].
+    + exists "", (dh :: dt). splits; [reflexivity | |].
+      * cbn [unescape_all]. rewrite E1, E2. reflexivity.
+      * rewrite E3. reflexivity.
+    + exists (String (hexbyte a b) dh), dt. splits; [|assumption|].
+      * unfold unescape in *. rewrite unescape_gen_triplet by assumption. rewrite E1. reflexivity.
+      * rewrite E3, join_cons_head. reflexivity.
+Qed.
+
+Theorem unescape_except_slashes_correct v : wfenc v -> unescape_except_slashes v = decode_keep_slash v.
+Proof.
+  intro W. destruct (ues_pieces_correct v W) as (dh & dt & E1 & E2 & E3).
+  unfold unescape_except_slashes. cbn [unescape_all]. rewrite E1, E2. symmetry. exact E3.
+Qed.
+
+Lemma reenc_dks v v' : reenc v v' -> decode_keep_slash v = decode_keep_slash v'.
+Proof.
+  induction 1 as [|c s s' Hc _ IH|c a b s s' Hu Ha Hb Hv _ IH|c a b s s' Hu Ha Hb Hv _ IH
+                  |a b a' b' s s' Ha Hb Ha' Hb' Hv _ IH].
+  - reflexivity.
+  - rewrite !dks_plain by assumption. rewrite IH. reflexivity.
+  - rewrite dks_plain by (apply unreserved_not_pct; assumption). rewrite dks_trip.
+    rewrite Hv, (unreserved_not_slash c Hu), IH. reflexivity.
+  - rewrite (dks_plain c) by (apply unreserved_not_pct; assumption). rewrite dks_trip.
+    rewrite Hv, (unreserved_not_slash c Hu), IH. reflexivity.
+  - rewrite !dks_trip. rewrite Hv, IH. reflexivity.
+Qed.
+
+Lemma decode_except_slash_agree fx v v' : reenc v v' ->
+  lc_ok (fx2 fx) v = true -> lc_ok (fx2 fx) v' = true ->
+  decode_except_slash fx v = decode_except_slash fx v'.
+Proof.
+  intros R G G'. unfold decode_except_slash. destruct (fx5 fx).
+  - rewrite !unescape_except_slashes_correct by (first [eapply reenc_wf_l; eassumption | eapply reenc_wf_r; eassumption]).
+    apply reenc_dks; assumption.
+  - f_equal. apply reenc_unescape_or_empty. apply reenc_protect; assumption.
+Qed.
+
 Lemma lc_ok_trip_eq ci a b r : ishex a = true -> ishex b = true ->
   lc_ok ci (String "%"%char (String a (String b r))) =
   lc_ok ci r && (ci || negb (Ascii.eqb "2"%char a && Ascii.eqb "f"%char b)).
@@ -716,9 +799,7 @@ Lemma unescape_capture_agree fx st v v' : reenc v v' ->
   unescape_capture fx st v = unescape_capture fx st v'.
 Proof.
   intros R G G'. unfold unescape_capture.
-  assert (E : unprotect (unescape_or_empty (protect (fx2 fx) v)) = unprotect (unescape_or_empty (protect (fx2 fx) v'))).
-  { f_equal. apply reenc_unescape_or_empty. apply reenc_protect; assumption. }
-  destruct st; try exact E. apply reenc_unescape_or_empty; assumption.
+  destruct st; try (apply decode_except_slash_agree; assumption). apply reenc_unescape_or_empty; assumption.
 Qed.
 
 Lemma assoc_rel ci k cs cs' : caps_rel ci cs cs' ->
@@ -739,7 +820,7 @@ Proof.
   - rewrite <- (has_enc_slash_reenc _ _ _ R G G'). rewrite (H3 eq_refl).
     rewrite (reenc_unescape_or_empty _ _ Rv). reflexivity.
   - rewrite (reenc_unescape_or_empty _ _ Rv). reflexivity.
-  - do 2 f_equal. apply reenc_unescape_or_empty. apply reenc_protect; assumption.
+  - f_equal. apply decode_except_slash_agree; assumption.
 Qed.
 
 Lemma forallb_agree {A} (f g : A -> bool) l : (forall x, In x l -> f x = g x) -> forallb f l = forallb g l.
@@ -1173,12 +1254,17 @@ Proof. splits; try (vm_compute; reflexivity). vm_compute. discriminate. Qed.
 Theorem capture_decoding fx st v :
   wfenc v ->
   (fx2 fx = true \/ contains "%2f" v = false) ->
-  guard_F5 v = false ->
+  (fx5 fx = true \/ guard_F5 v = false) ->
   unescape_capture fx st v =
   match st with On => unescape_or_empty v | _ => decode_keep_slash v end.
 Proof.
-  intros W G2 G5. destruct st; try reflexivity; unfold unescape_capture;
-    apply placeholder_correct; try assumption; unfold lc_ok; destruct G2 as [->| ->]; auto using orb_true_r.
+  intros W G2 G5.
+  assert (E : decode_except_slash fx v = decode_keep_slash v).
+  { unfold decode_except_slash. destruct (fx5 fx).
+    - apply unescape_except_slashes_correct; assumption.
+    - destruct G5 as [G5|G5]; [discriminate|].
+      apply placeholder_correct; try assumption. unfold lc_ok. destruct G2 as [->| ->]; auto using orb_true_r. }
+  destruct st; try exact E. reflexivity.
 Qed.
 
 (** ** token-wise predicates on well-formed strings survive splitting at '/' and joining *)
@@ -1267,45 +1353,50 @@ Lemma Forall_skipn {A} (P : A -> Prop) k : forall l, Forall P l -> Forall P (ski
 Proof. induction k as [|k IH]; intros l H; [exact H|]. destruct l; [constructor|]. inversion H; subst. simpl. auto. Qed.
 
 (** what holds for every piece of a well-formed path outside C08-F2 / C08-F5 *)
-Lemma pieces_ok ci p segs : wfenc p -> lc_ok ci p = true -> guard_F5 p = false -> path_segs p = Some segs ->
-  (forall s, In s segs -> wfenc s /\ lc_ok ci s = true /\ guard_F5 s = false /\ piece_of p s) /\
+Lemma pieces_ok (f5 : bool) ci p segs : wfenc p -> lc_ok ci p = true -> (f5 = true \/ guard_F5 p = false) ->
+  path_segs p = Some segs ->
+  (forall s, In s segs -> wfenc s /\ lc_ok ci s = true /\ (f5 = true \/ guard_F5 s = false) /\ piece_of p s) /\
   (forall k, let v := join_with "/" (skipn k segs) in
-             wfenc v /\ lc_ok ci v = true /\ guard_F5 v = false /\ piece_of p v).
+             wfenc v /\ lc_ok ci v = true /\ (f5 = true \/ guard_F5 v = false) /\ piece_of p v).
 Proof.
   intros W L G5 Sp.
   assert (Ws : Forall wfenc segs).
   { pose proof (path_segs_reenc p p (wfenc_reenc p W)) as S. rewrite Sp in S. inversion S as [|? ? S2]; subst.
     clear -S2. induction S2 as [|a b l l' Hab _ IH]; [constructor|]. constructor; [first [eapply reenc_wf_r; exact Hab | eapply reenc_wf_l; exact Hab] | exact IH]. }
   assert (Ls : Forall (fun s => lc_ok ci s = true) segs) by (eapply path_segs_lc; eassumption).
-  assert (Ts : Forall (fun s => tok_all nd_p nd_t s = true) segs).
-  { rewrite guard_F5_tok in G5 by assumption. apply negb_false_iff in G5.
+  assert (Ts : f5 = true \/ Forall (fun s => tok_all nd_p nd_t s = true) segs).
+  { destruct G5 as [G5|G5]; [left; exact G5 | right].
+    rewrite guard_F5_tok in G5 by assumption. apply negb_false_iff in G5.
     unfold path_segs in Sp. destruct p as [|c r]; [discriminate|].
     destruct (Ascii.eqb c "/"%char) eqn:E; [|discriminate]. inversion Sp; subst.
     apply ascii_eqb_true in E. subst c. rewrite tok_all_plain in G5 by reflexivity.
     apply andb_true_iff in G5 as [_ G5]. inversion W; subst.
     rewrite split_on_eq. destruct (tok_all_split1 nd_p nd_t r) as [T1 T2]; try assumption. constructor; assumption. }
   split.
-  - intros s Hs. rewrite Forall_forall in Ws, Ls, Ts. splits; auto.
-    + rewrite guard_F5_tok by auto. rewrite Ts by assumption. reflexivity.
+  - intros s Hs. rewrite Forall_forall in Ws, Ls. splits; auto.
+    + destruct Ts as [Ts|Ts]; [left; exact Ts | right]. rewrite Forall_forall in Ts.
+      rewrite guard_F5_tok by auto. rewrite Ts by assumption. reflexivity.
     + exists segs. auto.
   - intros k v. assert (Wk : Forall wfenc (skipn k segs)) by (apply Forall_skipn; assumption). splits.
     + apply wfenc_join; assumption.
     + apply lc_ok_join; [assumption | apply Forall_skipn; assumption].
-    + rewrite guard_F5_tok by (apply wfenc_join; assumption).
+    + destruct Ts as [Ts|Ts]; [left; exact Ts | right].
+      rewrite guard_F5_tok by (apply wfenc_join; assumption).
       unfold v. rewrite tok_all_join; [reflexivity | reflexivity | assumption | apply Forall_skipn; assumption].
     + exists segs. split; [assumption | right; exists k; reflexivity].
 Qed.
 
 (** the raw values the lookup captured are pieces of the request path *)
-Lemma find_rule_pieces fx rules ci u c p : u_rawpath u = p -> is_empty p = false ->
-  wfenc p -> lc_ok ci p = true -> guard_F5 p = false ->
+Lemma find_rule_pieces (f5 : bool) fx rules ci u c p : u_rawpath u = p -> is_empty p = false ->
+  wfenc p -> lc_ok ci p = true -> (f5 = true \/ guard_F5 p = false) ->
   find_rule fx rules u = Some c ->
-  Forall (fun kv => wfenc (snd kv) /\ lc_ok ci (snd kv) = true /\ guard_F5 (snd kv) = false /\ piece_of p (snd kv)) (cd_caps c).
+  Forall (fun kv => wfenc (snd kv) /\ lc_ok ci (snd kv) = true /\ (f5 = true \/ guard_F5 (snd kv) = false) /\
+                    piece_of p (snd kv)) (cd_caps c).
 Proof.
   intros Er Ne W L G5. unfold find_rule, lookup_path. rewrite Er, Ne.
   destruct (path_segs p) as [segs|] eqn:Sp; [|discriminate]. intro H.
-  destruct (pieces_ok ci p segs W L G5 Sp) as [P1 P2].
-  apply (dfs_caps_inv _ (fun v => wfenc v /\ lc_ok ci v = true /\ guard_F5 v = false /\ piece_of p v) segs _ _ P1 P2) in H;
+  destruct (pieces_ok f5 ci p segs W L G5 Sp) as [P1 P2].
+  apply (dfs_caps_inv _ (fun v => wfenc v /\ lc_ok ci v = true /\ (f5 = true \/ guard_F5 v = false) /\ piece_of p v) segs _ _ P1 P2) in H;
     [exact H|].
   apply Forall_forall. intros x Hx. apply in_cands_of in Hx as (r & t & _ & _ & ->). constructor.
 Qed.
@@ -1345,7 +1436,7 @@ Theorem nodecode_keeps fx rules dflt host q p rid cs up :
   p <> "*" ->
   guard_F4 p = false ->
   (fx2 fx = true \/ contains "%2f" p = false) ->
-  guard_F5 p = false ->
+  (fx5 fx = true \/ guard_F5 p = false) ->
   (forall r, In r rules -> r_id r = rid -> r_setting r = NoDecode) ->
   serve fx rules dflt host p q = Accepted rid false cs up ->
   Forall (fun kv => exists v, piece_of p v /\ snd kv = decode_keep_slash v) cs /\
@@ -1361,7 +1452,7 @@ Proof.
   destruct (find_rule fx rules u) as [c|] eqn:F.
   2:{ destruct dflt; [|discriminate]. unfold execute. destruct (has_enc_slash (fx2 fx) (u_rawpath u)); discriminate. }
   pose proof (find_rule_in _ _ _ _ F) as Hin.
-  pose proof (find_rule_pieces fx rules (fx2 fx) u c p Er Ne W L G5 F) as Pc.
+  pose proof (find_rule_pieces (fx5 fx) fx rules (fx2 fx) u c p Er Ne W L G5 F) as Pc.
   unfold execute. intro H.
   assert (Erid : r_id (cd_rule c) = rid).
   { destruct (r_setting (cd_rule c)); [destruct (has_enc_slash (fx2 fx) (u_rawpath u)); [discriminate|]| |];
@@ -1382,7 +1473,7 @@ Theorem on_decodes fx rules dflt host q p rid cs up :
   p <> "*" ->
   guard_F4 p = false ->
   (fx2 fx = true \/ contains "%2f" p = false) ->
-  guard_F5 p = false ->
+  (fx5 fx = true \/ guard_F5 p = false) ->
   (forall r, In r rules -> r_id r = rid -> r_setting r = On) ->
   serve fx rules dflt host p q = Accepted rid false cs up ->
   Forall (fun kv => exists v, piece_of p v /\ snd kv = unescape_or_empty v) cs /\
@@ -1399,7 +1490,7 @@ Proof.
   destruct (find_rule fx rules u) as [c|] eqn:F.
   2:{ destruct dflt; [|discriminate]. unfold execute. destruct (has_enc_slash (fx2 fx) (u_rawpath u)); discriminate. }
   pose proof (find_rule_in _ _ _ _ F) as Hin.
-  pose proof (find_rule_pieces fx rules (fx2 fx) u c p Er Ne W L G5 F) as Pc.
+  pose proof (find_rule_pieces (fx5 fx) fx rules (fx2 fx) u c p Er Ne W L G5 F) as Pc.
   unfold execute. intro H.
   assert (Erid : r_id (cd_rule c) = rid).
   { destruct (r_setting (cd_rule c)); [destruct (has_enc_slash (fx2 fx) (u_rawpath u)); [discriminate|]| |];
@@ -1537,7 +1628,7 @@ Theorem off_captures_decoded fx rules dflt host q p rid cs up :
   p <> "*" ->
   guard_F4 p = false ->
   (fx2 fx = true \/ contains "%2f" p = false) ->
-  guard_F5 p = false ->
+  (fx5 fx = true \/ guard_F5 p = false) ->
   (forall r, In r rules -> r_id r = rid -> r_setting r = Off) ->
   serve fx rules dflt host p q = Accepted rid false cs up ->
   enc_slash p = false /\
@@ -1558,7 +1649,7 @@ Proof.
   destruct (find_rule fx rules u) as [c|] eqn:F.
   2:{ destruct dflt; [|discriminate]. unfold execute. destruct (has_enc_slash (fx2 fx) (u_rawpath u)); discriminate. }
   pose proof (find_rule_in _ _ _ _ F) as Hin.
-  pose proof (find_rule_pieces fx rules (fx2 fx) u c p Er Ne W L G5 F) as Pc.
+  pose proof (find_rule_pieces (fx5 fx) fx rules (fx2 fx) u c p Er Ne W L G5 F) as Pc.
   assert (Tp : tok_all (fun _ => true) ns_t p = true).
   { rewrite enc_slash_tok in Es by assumption. apply negb_false_iff in Es. exact Es. }
   pose proof (find_rule_pieces_tok (fun _ => true) ns_t fx rules u c p eq_refl Er Ne W Tp F) as Pt.
@@ -1571,7 +1662,7 @@ Proof.
   rewrite Forall_map. rewrite Forall_forall in Pc, Pt. apply Forall_forall. intros [n v] Hx.
   destruct (Pc _ Hx) as (Wv & Lv & Gv & Pv). pose proof (Pt _ Hx) as Tv. simpl in *.
   exists v. split; [assumption|].
-  change (unprotect (unescape_or_empty (protect (fx2 fx) v))) with (unescape_capture fx Off v).
+  change (decode_except_slash fx v) with (unescape_capture fx Off v).
   rewrite (capture_decoding fx Off v Wv); [| |assumption].
   - apply dks_no_slash; [assumption|]. rewrite enc_slash_tok by assumption. rewrite Tv. reflexivity.
   - unfold lc_ok in Lv. destruct (fx2 fx); [left; reflexivity | right]. simpl in Lv. apply negb_true_iff in Lv. exact Lv.
@@ -1763,36 +1854,36 @@ Proof.
   intros r [<-|[]]. reflexivity.
 Qed.
 
-Theorem capture_decoding_repaired st v : wfenc v -> guard_F5 v = false ->
+Theorem capture_decoding_repaired st v : wfenc v ->
   unescape_capture repaired st v = match st with On => unescape_or_empty v | _ => decode_keep_slash v end.
-Proof. intros W G5. apply capture_decoding; auto. Qed.
+Proof. intros W. apply capture_decoding; auto. Qed.
 
 Theorem nodecode_keeps_repaired rules dflt host q p rid cs up :
-  p <> "*" -> guard_F4 p = false -> guard_F5 p = false ->
+  p <> "*" -> guard_F4 p = false ->
   (forall r, In r rules -> r_id r = rid -> r_setting r = NoDecode) ->
   serve repaired rules dflt host p q = Accepted rid false cs up ->
   Forall (fun kv => exists v, piece_of p v /\ snd kv = decode_keep_slash v) cs /\
   ((forall r, In r rules -> r_id r = rid -> exists h, r_backend r = Some {| b_host := h; b_rw := None |}) ->
    exists u', up = Some u' /\ u_rawpath u' = p /\ wire_path u' = p).
-Proof. intros S G4 G5. apply nodecode_keeps; auto. Qed.
+Proof. intros S G4. apply nodecode_keeps; auto. Qed.
 
 Theorem on_decodes_repaired rules dflt host q p rid cs up :
-  p <> "*" -> guard_F4 p = false -> guard_F5 p = false ->
+  p <> "*" -> guard_F4 p = false ->
   (forall r, In r rules -> r_id r = rid -> r_setting r = On) ->
   serve repaired rules dflt host p q = Accepted rid false cs up ->
   Forall (fun kv => exists v, piece_of p v /\ snd kv = unescape_or_empty v) cs /\
   ((forall r, In r rules -> r_id r = rid -> exists h, r_backend r = Some {| b_host := h; b_rw := None |}) ->
    exists u', up = Some u' /\ u_rawpath u' = "" /\ u_path u' = unescape_or_empty p /\
               enc_slash (wire_path u') = false).
-Proof. intros S G4 G5. apply on_decodes; auto. Qed.
+Proof. intros S G4. apply on_decodes; auto. Qed.
 
 Theorem off_captures_decoded_repaired rules dflt host q p rid cs up :
-  p <> "*" -> guard_F4 p = false -> guard_F5 p = false ->
+  p <> "*" -> guard_F4 p = false ->
   (forall r, In r rules -> r_id r = rid -> r_setting r = Off) ->
   serve repaired rules dflt host p q = Accepted rid false cs up ->
   enc_slash p = false /\
   Forall (fun kv => exists v, piece_of p v /\ snd kv = unescape_or_empty v) cs.
-Proof. intros S G4 G5. apply off_captures_decoded; auto. Qed.
+Proof. intros S G4. apply off_captures_decoded; auto. Qed.
 
 Example nodecode_on_repaired_nonvacuous :
   serve repaired w_rules_nd false "h" "/files/a%2fb/c%20d" "" =
@@ -1803,11 +1894,18 @@ Example nodecode_on_repaired_nonvacuous :
       (Some {| u_scheme := "http"; u_host := "up"; u_path := "/files/a/b/c d"; u_rawpath := ""; u_query := "" |}).
 Proof. split; vm_compute; reflexivity. Qed.
 
-Theorem F5_nodecode_repaired_refuted :
+(** C08-F5 on the tree before 6d0a3af: the place-holder text in the request came out as %2F *)
+Theorem F5_nodecode_pinned_refuted :
   guard_F5 "/files/x$$$escaped-slash$$$y" = true /\
-  (exists up, serve repaired w_rules_nd false "h" "/files/x$$$escaped-slash$$$y" "" = Accepted "nd" false [("rest", "x%2Fy")] up) /\
+  (exists up, serve before_F5 w_rules_nd false "h" "/files/x$$$escaped-slash$$$y" "" = Accepted "nd" false [("rest", "x%2Fy")] up) /\
   decode_keep_slash "x$$$escaped-slash$$$y" = "x$$$escaped-slash$$$y".
 Proof. splits; try (vm_compute; reflexivity). eexists. vm_compute. reflexivity. Qed.
+
+(** … and on the current tree it is an ordinary value *)
+Example F5_repaired_no_witness :
+  exists up, serve repaired w_rules_nd false "h" "/files/x$$$escaped-slash$$$y/a%2fb" "" =
+             Accepted "nd" false [("rest", "x$$$escaped-slash$$$y/a%2Fb")] up.
+Proof. eexists. vm_compute. reflexivity. Qed.
 
 (** * Part G — the Envoy entry point *)
 
